@@ -1,3 +1,18 @@
 """Table predicates (beyond C01's row predicates) whose per-chunk `decide +kernel` theorems the
-translator generates.  Each property that needs one adds an entry (see translate.TABLE_PREDICATES)."""
+translator generates.  Each property that needs one adds an entry (see translate.TABLE_PREDICATES):
+
+    dict(tag="defcat", pred="UnitRow.defaultCatOk {db}", imports=["Barril.Model.Ctor"],
+         kinds=["posc"], over="units")     # over = "units" | "cats"
+
+While an engine is being developed in a private Lean copy, its predicates are tried out through the
+environment variable BARRIL_EXTRA_TABLEPREDS=<path to a JSON list of such dicts> (so that the shared
+list only ever names model files that exist in /verif/lean)."""
+import json
+import os
+
 PREDICATES = []
+
+_extra = os.environ.get("BARRIL_EXTRA_TABLEPREDS")
+if _extra and os.path.exists(_extra):
+    with open(_extra, encoding="utf8") as _f:
+        PREDICATES = PREDICATES + json.load(_f)
